@@ -62,6 +62,34 @@ CHECKS = {
             "ArrayData::validate_full is trusted as the validity oracle for returned batches",
         ],
     },
+    "C05": {
+        "crate": "checks",
+        "bin": "c05_parquet_rt",
+        "level": "exploration",
+        "max_skip_fraction": 0.10,
+        "rule": "one run = one logical table (0-160 rows; primitive, decimal, temporal, byte / view / fixed, dictionary, struct / list / large-list / fixed-size-list / map nesting up to depth 3, nulls at every level, NaN "
+                "payloads, extreme values) written under a tape-chosen history (consecutive slices of one batch passed to write(), explicit flush() after some, close()) and configuration (format version, dictionary on/off "
+                "and tiny dictionary page limit, data page size / row limits, write batch size, row-group row limit, codec, statistics level, bloom filter, per-column non-default encodings), serially through ArrowWriter "
+                "or through one ArrowColumnWriter per leaf run as cooperative tasks (a seeded scheduler picks which worker encodes its next leaf and in which order workers close; chunks appended in schema order), read "
+                "back with a tape-chosen batch size and compared with the generated logical rows; distinct = distinct (mode, history, scheduler decisions)",
+        "required_probes": ["probe.several_row_groups", "probe.dictionary_fallback_in_chunk", "probe.explicit_flush", "probe.interleaved_column_writers", "probe.enc.delta_length_byte_array", "probe.enc.delta_binary_packed", "probe.enc.byte_stream_split"],
+        "components": {
+            "real": ["parquet::arrow::ArrowWriter, ArrowRowGroupWriterFactory, ArrowColumnWriter, compute_leaves, ArrowColumnChunk::append_to_row_group, SerializedFileWriter", "all value / level encoders and decoders, codecs",
+                     "ParquetRecordBatchReaderBuilder / ParquetRecordBatchReader"],
+            "stub": ["the caller's write history", "the column-writer workers' scheduler (cooperative tasks instead of threads)"],
+            "not_run": ["real threads for the column writers", "PageStore spilling", "content-defined chunking", "run-end encoded and list-view columns", "AsyncArrowWriter (I/O faults on it are C18's matter)"],
+        },
+        "level_text": "seeded exploration of write histories, writer configurations and column-writer schedules against the logical rows the table was generated from (the oracle never uses arrow's ==); sampling, not proof",
+        "design_ref": "DESIGN.md section 4 (C05), section 11",
+        "level_note": "zero-width fixed-size types are exercised in a scenario of their own (the writer's panic on them is a known finding); run-end encoded / list-view columns, CDC and PageStore spilling are not exercised; "
+                      "the column writers run as cooperative tasks on one thread (their interleaving is the scheduler's, not the OS's); returned batches must also pass ArrayData::validate_full (trusted)",
+        "technique": "deterministic simulation: seeded write histories and a seeded scheduler over independent column-writer tasks, reference = the logical rows the data was generated from; tape replay + shrinking",
+        "assumptions": TRUSTED + [
+            "per-column encodings are chosen only where legal for the column's physical type",
+            "dictionary columns are compared by the values they denote; floats by bit pattern",
+            "ArrayData::validate_full is trusted as the validity oracle for returned batches",
+        ],
+    },
     "C08": {
         "crate": "checks",
         "bin": "c08_corrupt",
